@@ -21,7 +21,7 @@ func init() {
 		Level: "exploration",
 		Rule: "a real p9p.CSession client in front of a scripted fake server (raw wire, reference codec). (a) Rounds on one session: N in {1..64} concurrent callers of mixed kinds (Read, Stat, Walk, Open, Attach, Write, Create), every call and every reply carrying a unique id; the server collects the requests, " +
 			"answers them in a PRNG permutation in several batches with new callers arriving in between, some replies are Rerror, some callers abandon their call (context cancelled) before the reply and are answered late — in the same or a later round. (b) Tag wrap: one session, >= 70 000 calls from 8 pipelining callers answered at once, " +
-			"while L in {1,17,200} long-outstanding (some abandoned) calls pin tags spread over the tag space; thorough repeats with 200 000 calls. Online monitor: a request's tag is never NOTAG and never equal to a tag still awaiting its reply on the server side (including abandoned calls); each call returns the result carrying its own id (or the error text of its Rerror); " +
+			"while L in {1,17,200} long-outstanding (some abandoned) calls pin tags spread over the tag space; thorough repeats with 200 000 calls. (c) Depletion: 65535 calls are abandoned as their requests arrive and never answered, so that every tag is outstanding; one more call must fail without putting a request on the wire; after the replies are sent a new call succeeds. (d) calls issued with an already ended context while others are pending. Online monitor: a request's tag is never NOTAG and never equal to a tag still awaiting its reply on the server side (including abandoned calls); each call returns the result carrying its own id (or the error text of its Rerror); " +
 			"at quiescence every call whose reply was sent has returned; the wrap 0xFFFE->0 must be observed in (b). Go race detector on transport.go / csession.go / channel.go. non-trivial = >= 2 outstanding tags and >= 1 reply out of request order; distinct by hash of (arrival order, reply order)",
 		Assumptions: []string{
 			"the fake server is the judge of 'awaiting a reply': a tag is outstanding from the moment its request is parsed until the script sends its reply",
@@ -32,7 +32,7 @@ func init() {
 		Shards:    shards(8, 16),
 		Timeout:   timeouts(4*time.Minute, 40*time.Minute),
 		MinEvals:  50,
-		Required:  []string{"rounds", "replies_out_of_order", "abandoned_then_answered_late", "error_replies", "wrap_runs", "tag_wraps_observed", "pinned_tags_skipped_checks", "calls_returned_own_uid", "abandoned_during_write", "pin_bursts_below_notag"},
+		Required:  []string{"rounds", "replies_out_of_order", "abandoned_then_answered_late", "error_replies", "wrap_runs", "tag_wraps_observed", "pinned_tags_skipped_checks", "calls_returned_own_uid", "abandoned_during_write", "pin_bursts_below_notag", "dead_context_calls_among_pending", "depletion_runs", "depleted_call_refused"},
 		Run:       runC05,
 	})
 }
@@ -60,6 +60,12 @@ func runC05(w *mon.W) {
 	for i := 0; i < w.Scale(24, 600); i++ {
 		if w.Mine(i) {
 			runC05AbandonedWrite(w, i)
+		}
+	}
+	for i := 0; i < w.Scale(1, 2)*w.NShards; i++ {
+		// quick: one shard; thorough: two
+		if w.Mine(i) && i >= 3 && i < 3+w.Scale(1, 2) {
+			runC05Depletion(w, i)
 		}
 	}
 	wraps := w.Scale(1, 5)
@@ -202,6 +208,49 @@ func runC05Rounds(w *mon.W, no int) {
 		}
 		if !absorb(cs) {
 			return
+		}
+		// calls whose context has already ended when they are issued, while the others are pending:
+		// they fail locally and must not disturb anybody
+		if w.Rng.Intn(2) == 0 {
+			k := 1 + w.Rng.Intn(3)
+			var pre []*c05call
+			for i := 0; i < k; i++ {
+				uid++
+				c := &c05call{uid: uid, kind: callKind(w.Rng.Intn(int(nCallKinds))), abandon: true}
+				c.ctx, c.cancel = context.WithCancel(context.Background())
+				c.cancel()
+				pre = append(pre, c)
+				c.res, c.done = doCall(c.ctx, h.sess, c.kind, c.uid), true
+				if c.res.err == nil {
+					bad("dead-context-call-succeeded", "call uid=%d issued with an already cancelled context returned success", c.uid)
+					return
+				}
+			}
+			w.Count("dead_context_calls_among_pending", int64(k))
+			trace = append(trace, fmt.Sprintf("%d call(s) with an already cancelled context", k))
+			if !settle() {
+				w.Inconclusive("watchdog")
+				return
+			}
+			// should one of them have reached the wire all the same, its tag counts as outstanding
+			byUID := map[int]*c05call{}
+			for _, c := range pre {
+				byUID[c.uid] = c
+			}
+			for _, rq := range h.take() {
+				c := byUID[uidOfRequest(rq)]
+				if c == nil || c.req != nil {
+					bad("unknown-request", "request %v does not belong to a call just issued", rq)
+					return
+				}
+				if o := outstanding[rq.Tag]; o != nil || rq.Tag == p9p.NOTAG {
+					bad("tag-reused-while-outstanding", "call uid=%d (dead context) was sent with tag %d, which is reserved or still awaits a reply", c.uid, rq.Tag)
+					return
+				}
+				c.req = rq
+				outstanding[rq.Tag] = c
+				late = append(late, c)
+			}
 		}
 		// abandon some
 		var live []*c05call
@@ -584,4 +633,137 @@ func runC05AbandonedWrite(w *mon.W, no int) {
 	}
 	w.Count("calls_returned_own_uid", int64(n))
 	w.NT(fmt.Sprintf("abandoned-write/%d", n))
+}
+
+// runC05Depletion: every one of the 65535 usable tags is outstanding (all callers have
+// abandoned their calls, no reply was sent). One more call cannot be given a tag: it must
+// fail, and no request carrying an outstanding tag may appear on the wire.
+func runC05Depletion(w *mon.W, no int) {
+	h := newCliH(0, 1<<20)
+	defer h.close()
+	w.Case("C05 depletion run #%d", no)
+	if err := h.dial(); err != nil {
+		w.Inconclusive("dial: %v", err)
+		return
+	}
+	w.Eval()
+	w.Count("depletion_runs", 1)
+	const N = 0xFFFF
+	var mu sync.Mutex
+	held := map[p9p.Tag]*p9p.Fcall{}
+	cancels := map[int]context.CancelFunc{}
+	violated := false
+	answerAll := false
+	h.mu.Lock()
+	h.onReq = func(fc *p9p.Fcall) {
+		mu.Lock()
+		defer mu.Unlock()
+		u := uidOfRequest(fc)
+		if fc.Tag == p9p.NOTAG {
+			violated = true
+			w.Violate("mismatch", "C05:notag-used", fmt.Sprintf("depletion run: request uid %d uses NOTAG", u), nil)
+		}
+		if old, ok := held[fc.Tag]; ok {
+			violated = true
+			w.Violate("mismatch", "C05:tag-reused-while-outstanding", fmt.Sprintf("depletion run: request uid %d was sent with tag %d which still awaits the reply of the abandoned call uid=%d (%d tags outstanding)", u, fc.Tag, uidOfRequest(old), len(held)), nil)
+		}
+		if answerAll {
+			h.reply(replyFor(fc, u))
+			return
+		}
+		held[fc.Tag] = fc
+		if c := cancels[u]; c != nil {
+			c()
+		}
+	}
+	h.mu.Unlock()
+	const workers = 8
+	var wg sync.WaitGroup
+	for k := 0; k < workers; k++ {
+		wg.Add(1)
+		go func(k int) {
+			defer wg.Done()
+			for i := k; i < N; i += workers {
+				uid := i + 1
+				ctx, cancel := context.WithCancel(context.Background())
+				mu.Lock()
+				cancels[uid] = cancel
+				mu.Unlock()
+				doCall(ctx, h.sess, ckStat, uid)
+			}
+		}(k)
+	}
+	done := make(chan struct{})
+	go func() { wg.Wait(); close(done) }()
+	q := mon.AwaitQuiesceLong(done, 25*time.Minute)
+	if q.Hung {
+		w.Violate("hang", "C05:hang:"+q.Sites, fmt.Sprintf("depletion run: abandoned callers have not returned although the process is quiescent; blocked at %s", q.Sites), nil)
+		return
+	}
+	if !q.Done {
+		w.Inconclusive("watchdog in depletion run")
+		return
+	}
+	if !settle() {
+		return
+	}
+	mu.Lock()
+	n := len(held)
+	mu.Unlock()
+	w.Max("depletion_outstanding_tags", int64(n))
+	if n != N {
+		if !violated {
+			w.Inconclusive("depletion run: %d tags outstanding, wanted %d", n, N)
+		}
+		return
+	}
+	// one more call: no tag can be had
+	var extra callRes
+	xdone := make(chan struct{})
+	go func() { extra = doCall(context.Background(), h.sess, ckStat, 70001); close(xdone) }()
+	q = mon.AwaitQuiesce(xdone)
+	if q.Done {
+		if extra.err == nil {
+			w.Violate("mismatch", "C05:depleted-call-succeeded", fmt.Sprintf("with all 65535 tags outstanding one more call returned success (uid %d)", extra.uid), nil)
+		}
+		w.Count("depleted_call_refused", 1)
+	} else if q.Hung {
+		mu.Lock()
+		v := violated
+		mu.Unlock()
+		if !v {
+			w.Violate("hang", "C05:depleted-call-hangs:"+q.Sites, "with all 65535 tags outstanding one more call neither fails nor returns; blocked at "+q.Sites, nil)
+		}
+	}
+	// the server now answers everything: the tags are free again and a new call works
+	mu.Lock()
+	all := make([]*p9p.Fcall, 0, len(held))
+	for _, fc := range held {
+		all = append(all, fc)
+	}
+	held = map[p9p.Tag]*p9p.Fcall{}
+	answerAll = true
+	mu.Unlock()
+	for _, fc := range all {
+		h.reply(replyFor(fc, uidOfRequest(fc)))
+	}
+	settle()
+	var after callRes
+	adone := make(chan struct{})
+	go func() { after = doCall(context.Background(), h.sess, ckStat, 70002); close(adone) }()
+	q = mon.AwaitQuiesce(adone)
+	mu.Lock()
+	v := violated
+	mu.Unlock()
+	if !v {
+		if q.Hung {
+			w.Violate("hang", "C05:call-after-depletion-hangs:"+q.Sites, "after every outstanding tag was answered a new call does not return; blocked at "+q.Sites, nil)
+		} else if q.Done && (after.err != nil || after.uid != 70002) {
+			w.Violate("mismatch", "C05:crossed-reply", fmt.Sprintf("after the tag pool was depleted and answered, a new call returned uid=%d err=%v", after.uid, after.err), nil)
+		} else if q.Done {
+			w.Count("calls_returned_own_uid", 1)
+			w.NT(fmt.Sprintf("depletion/%d", no))
+		}
+	}
+	w.Sample(map[string]interface{}{"depletion_run": no, "outstanding_tags": n, "extra_call_error": fmt.Sprint(extra.err)})
 }
